@@ -58,6 +58,12 @@ REP_RULE = ("one replica (in-memory, one third on SQLite): random sequences of a
             "old values, undo points; 1/4 of cases also commit invalid operations and untrue old values), get_undo_operations, undo, undo of stale lists, "
             "working-set rebuilds in both modes, expire_tasks, syncs against a private server; a full dump after every action")
 
+TASK_RULE = ("one in-memory replica: arbitrary stored task maps over the recognised keys and prefixes (status, timestamps, tag_*, annotation_*, dep_* in all four "
+             "uuid syntaxes and malformed, UDAs, empty key) with a value pool of empty, 0, -1, +5, ' 7', 1e3, i64 max, i64 max+1, chrono max/max+1, chrono min/min-1, "
+             "non-ASCII digits, statuses, 70 kB, separators; create_task / get_task / import_task_with_uuid; every Task mutator and TaskData::update/delete with "
+             "arbitrary arguments (valid, invalid and synthetic tags, model keys as UDA names); commits; a sweep of every read accessor of Task, TaskData, "
+             "WorkingSet, DependencyMap and Replica under catch_unwind; working-set rebuilds")
+
 HIST_Q = {"cases": 400, "max_len": 30}
 HIST_T = {"cases": 20000, "max_len": 80}
 
@@ -234,5 +240,36 @@ PROPS = {
                                      "the rusqlite-based downgrade of a database file reproduces the layout older TaskChampion versions wrote (built from the statements in schema.rs)"],
         "assumptions": ["calls respect the storage contract (index in range; one commit per transaction: a transaction is over after commit, even a refused one)",
                         "partial: the Lean refinement is proved for transaction visibility, read-only mode and add_to_working_set on rows; the remaining SQLite statements are covered by the three-way run only"],
+    },
+    "C18": {
+        "module": "TcVerif.Props.C18",
+        "theorems": ["Tc.C18_timestamp_total", "Tc.C18_timestamp_is_accessor", "Tc.C18_pinned_counterexample", "Tc.C18_repair_conservative",
+                     "Tc.C18_uninterpretable_timestamp", "Tc.C18_malformed_tag_ignored", "Tc.C18_malformed_annotation_ignored",
+                     "Tc.C18_malformed_dependency_ignored", "Tc.C18_status_total", "Tc.C18_ws_slot0_invariant", "Tc.C18_ws_assert_unreachable"],
+        "leanchecker_modules": [],
+        "runs": [
+            {"family": "task", "flags": [], "quick": {"cases": 400, "max_len": 40}, "thorough": {"cases": 20000, "max_len": 80}},
+        ],
+        "source_ties": ["panic_sites.py"],
+        "judge_preds": ["no-panic"],
+        "nontrivial": lambda imp, ops: any(l.startswith("R ") for l in ops) and any(l.startswith("A ") for l in ops),
+        "rule": TASK_RULE + "; non-trivial = arbitrary stored content was written and the accessor sweep ran afterwards; distinct by SHA-1",
+        "trusted_base": TB_COMMON + ["panics are observed through catch_unwind around every accessor call; the panic-site inventory of the anchored files is compared with the reviewed list on every run"],
+        "assumptions": ["is_waiting is compared with wait times at least a day from now"],
+    },
+    "C19": {
+        "module": "TcVerif.Props.C19",
+        "theorems": ["Tc.C19_commit_matches_object", "Tc.setValue_faithful", "Tc.setStatus_faithful", "Tc.start_faithful", "Tc.dataUpdate_faithful",
+                     "Tc.C19_end_rule_close", "Tc.C19_end_rule_reopen", "Tc.C19_modified_once", "Tc.C19_reserved_rejected",
+                     "Tc.C19_read_back", "Tc.C19_other_keys_kept", "Tc.C19_depmap_exact"],
+        "leanchecker_modules": [],
+        "runs": [
+            {"family": "task", "flags": [], "quick": {"cases": 400, "max_len": 40}, "thorough": {"cases": 20000, "max_len": 80}},
+        ],
+        "judge_preds": ["api-valid", "old-values", "object", "end-rule", "reserved", "modified-once"],
+        "nontrivial": lambda imp, ops: sum(1 for l in ops if l.startswith("M ")) >= 3 and any(l == "P" for l in ops),
+        "rule": TASK_RULE + "; non-trivial = at least three mutator calls and a commit; distinct by SHA-1",
+        "trusted_base": TB_COMMON + ["Utc::now() is read by the harness inside the same second as the mutator (the harness waits when the clock is within 150 ms of a second boundary)"],
+        "assumptions": ["a deleted TaskData is dropped by the caller (documented)", "create_task twice for one new uuid without a commit in between records two Creates (the replica cannot know): not generated as a violation"],
     },
 }
